@@ -307,7 +307,9 @@ func TestCx04TLS(t *testing.T) {
 	}
 
 	// 1. the setup, through the API
+	t0 := time.Now()
 	c.checkOpts(opts, selftest, seed)
+	tOpts := time.Since(t0)
 
 	// 2. the served cases: one instance, two sites
 	var crs []*caseRun
@@ -347,8 +349,11 @@ func TestCx04TLS(t *testing.T) {
 		}
 		return
 	}
+	tStart := time.Since(t0) - tOpts
 	healthSettle(crs, before)
 	groups := map[string][]*caseRun{}
+	var gmu sync.Mutex
+	gtime := map[string]string{}
 	for _, cr := range crs {
 		g := "dead:" + cr.c.Be.Reach + fmt.Sprint(cr.c.idx%4)
 		if cr.be != nil {
@@ -368,6 +373,12 @@ func TestCx04TLS(t *testing.T) {
 			sem <- struct{}{}
 			defer func() { <-sem }()
 			rnd := rand.New(rand.NewSource(seed*7919 + int64(list[0].c.idx)))
+			g0 := time.Now()
+			defer func() {
+				gmu.Lock()
+				gtime[fmt.Sprintf("%s (%d cases)", list[0].c.Be.Cert+map[bool]string{true: "+h2"}[list[0].c.Be.H2]+map[bool]string{true: "@unix"}[list[0].c.Be.Unix]+"/"+list[0].c.Be.Reach, len(list))] = time.Since(g0).Round(time.Millisecond).String()
+				gmu.Unlock()
+			}()
 			for _, cr := range list {
 				var mut func(b, k int, w *wantJ, idle *int)
 				plantedHere := false
@@ -404,11 +415,17 @@ func TestCx04TLS(t *testing.T) {
 					if plantedHere {
 						c.mu.Lock()
 						c.planted++
+						hit := false
 						for _, f := range fs {
 							if important(f) {
-								c.caught++
+								hit = true
 								break
 							}
+						}
+						if hit {
+							c.caught++
+						} else {
+							c.stats["selftest_missed: "+cr.c.ID] = 1
 						}
 						c.mu.Unlock()
 					}
@@ -427,6 +444,7 @@ func TestCx04TLS(t *testing.T) {
 	site.Stop()
 	c.stat("served_cases", len(crs))
 	res.AddExtra("dns_queries", fx.dns.queries.Load())
+	res.AddExtra("timing", map[string]interface{}{"opts": tOpts.Round(time.Millisecond).String(), "start": tStart.Round(time.Millisecond).String(), "total": time.Since(t0).Round(time.Millisecond).String(), "groups": gtime})
 
 	if c.infra != "" {
 		res.Infra = c.infra
@@ -556,7 +574,11 @@ func (c *checker) checkOpts(opts []*caseJ, selftest bool, seed int64) {
 				case 0:
 					tr[0].Skip = !tr[0].Skip
 				case 1:
-					tr[0].HS = 10000 - tr[0].HS
+					if tr[0].Kind == "quic" { // (no handshake time-out to compare there)
+						tr[0].CC = !tr[0].CC
+					} else {
+						tr[0].HS = 10000 - tr[0].HS
+					}
 				default:
 					tr[0].Dial += 1
 				}
